@@ -111,6 +111,7 @@ class Scope(FortranObj):
     def check_definitions(self, obj_tree) -> list[Diagnostic]:
         """Check for definition errors in scope"""
         fqsn_dict: dict[str, int] = {}
+        first_decl: dict[str, FortranObj] = {}
         errors: list[Diagnostic] = []
         known_types: dict[str, FortranObj] = {}
 
@@ -130,10 +131,12 @@ class Scope(FortranObj):
                 continue
             # Check other variables in current scope
             if child.FQSN in fqsn_dict:
-                if line_of(child) < fqsn_dict[child.FQSN]:
+                if line_of(child) - 1 < fqsn_dict[child.FQSN]:
                     fqsn_dict[child.FQSN] = line_of(child) - 1
+                    first_decl[child.FQSN] = child
             else:
                 fqsn_dict[child.FQSN] = line_of(child) - 1
+                first_decl[child.FQSN] = child
 
         contains_line = -1
         if self.get_type() in (
@@ -182,7 +185,8 @@ class Scope(FortranObj):
             ):
                 continue
             # Check other variables in current scope
-            if child.FQSN in fqsn_dict and line_number > fqsn_dict[child.FQSN]:
+            # (a name may be declared twice by one statement, on the same line)
+            if child.FQSN in fqsn_dict and first_decl[child.FQSN] is not child:
                 new_diag = Diagnostic(
                     line_number,
                     message=f'Variable "{child.name}" declared twice in scope',
